@@ -507,3 +507,44 @@ package gorm
 //@   ensures keeps-skiphooks: result.Statement.SkipHooks == old(db.Statement.SkipHooks) [C13]
 //@   ensures keeps-context: result.Statement.Context == old(db.Statement.Context) [C18]
 //@   ensures keeps-connpool: result.Statement.ConnPool == old(db.Statement.ConnPool) [C05]
+
+//@ # ---------- C16: FirstOrInit never writes, FirstOrCreate writes at most once, both look up the first match by primary key ----------
+//@ ghost creates updatesCalls limitedTo1 orderedByPK viaOnConflict
+//@ event call (*DB).Create
+//@   do creates = creates + 1
+//@ event call (*DB).Updates
+//@   do updatesCalls = updatesCalls + 1
+//@ event call (*DB).Limit
+//@   in gorm.(*DB).FirstOrCreate gorm.(*DB).FirstOrInit
+//@   do limitedTo1 = ite(arg1 == 1, ref(result), 0)
+//@ event call (*DB).Order
+//@   in gorm.(*DB).FirstOrCreate gorm.(*DB).FirstOrInit
+//@   do orderedByPK = ite(ref(arg0) == limitedTo1 && is(arg1, clause.OrderByColumn) && arg1.(clause.OrderByColumn).Column == clause.Column{Table: clause.CurrentTable, Name: clause.PrimaryKey} && !arg1.(clause.OrderByColumn).Desc, ref(result), 0)
+//@ site first-match-lookup
+//@   match call gorm.(*DB).Find
+//@   in gorm.(*DB).FirstOrCreate gorm.(*DB).FirstOrInit
+//@   min-sites 2
+//@   entry limitedTo1 == 0 && orderedByPK == 0
+//@   assert one-row-in-primary-key-order: orderedByPK != 0 && ref(arg0) == orderedByPK [C16]
+//@ func (*DB).FirstOrCreate
+//@   tags C16
+//@   ensures at-most-one-write: creates + updatesCalls <= old(creates) + old(updatesCalls) + 1
+//@ func (*DB).FirstOrInit
+//@   tags C16
+//@   ensures never-writes: creates == old(creates) && updatesCalls == old(updatesCalls)
+
+//@ # ---------- C16: Save's inserts are upserts over all fields ----------
+//@ event call (*DB).Clauses
+//@   in gorm.(*DB).Save
+//@   do viaOnConflict = ref(result)
+//@ site save-upserts-all-fields
+//@   match call gorm.(*DB).Clauses
+//@   in gorm.(*DB).Save
+//@   min-sites 2
+//@   assert on-conflict-update-all: len(arg1) == 1 && is(arg1[0], clause.OnConflict) && arg1[0].(clause.OnConflict).UpdateAll [C16]
+//@ site save-fallback-is-the-upsert
+//@   match call gorm.(*DB).Create
+//@   in gorm.(*DB).Save
+//@   min-sites 1
+//@   entry viaOnConflict == 0
+//@   assert through-on-conflict: viaOnConflict != 0 && ref(arg0) == viaOnConflict [C16]
